@@ -189,6 +189,18 @@ theorem extrudeShapeTris_len (pathLen sides : Nat) (close : Bool) :
   · cases close <;> simp [extrudeRing_len]
   · exact extrudeRing_len _ _ _
 
+/-! ### extrude.Line -/
+
+theorem extrudeLineTris_lt (n : Nat) : ∀ i ∈ extrudeLineTris n, i < extrudeLineVerts n := by
+  intro i hi
+  simp only [extrudeLineTris, extrudeLineVerts, List.mem_flatMap, List.mem_range, List.mem_cons,
+    List.not_mem_nil, or_false] at hi ⊢
+  obtain ⟨j, hj, hi⟩ := hi
+  rcases hi with rfl | rfl | rfl | rfl | rfl | rfl | rfl | rfl | rfl | rfl | rfl | rfl <;> omega
+
+theorem extrudeLineTris_len (n : Nat) : (extrudeLineTris n).length % 3 = 0 :=
+  length_flatMap_mod3 _ _ (fun _ _ => by simp)
+
 /-! ### extrude.polygon -/
 
 theorem polygonQuads_bound {pathLen sides : Nat} {closed : Bool} {q : Nat × Nat × Nat}
